@@ -736,6 +736,15 @@ func finishReport(P *Program, rep *Report, known *KnownFile, t0 time.Time) int {
 	knownPrinted := map[string]bool{}
 	for _, r := range rep.Results {
 		rep.SolverSecs += r.Secs
+		if r.Known == nil && r.Kind == "K5" && known != nil {
+			// scan results (call-site / write-site scans) are matched against the known findings here: the
+			// name of such a result already identifies the one offending function
+			for i := range known.Findings {
+				if f := &known.Findings[i]; f.Obligation == r.Name && f.Property == id && f.Status != "fixed" {
+					r.Known = f
+				}
+			}
+		}
 		if r.Known != nil && !strings.HasSuffix(r.Name, "[outside known finding]") {
 			// the recorded finding itself: report while it still fails; never counts
 			if r.Status != "unsat" {
